@@ -306,10 +306,12 @@ func (s *Session) Mail(from string, opts *smtp.MailOptions) error {
 			}
 			return s.endp.wrapErr(msgID, !opts.UTF8, "MAIL", err)
 		}
+		// startDelivery stored the cleaned sender; releaseLimits derives the
+		// key of the source limit from it, so it must not be overwritten.
+	} else {
+		// Keep the MAIL FROM argument for deferred startDelivery.
+		s.mailFrom = from
 	}
-
-	// Keep the MAIL FROM argument for deferred startDelivery.
-	s.mailFrom = from
 	s.opts = *opts
 
 	return nil
